@@ -11,21 +11,21 @@ listener belongs to a polled, uncompleted future.  Invariant of every operation;
 
 namespace ALock
 
-theorem mem_owners_notify {add : Bool} {n : Nat} {q : List Entry} :
-    owners (Ev.notify add n q) = owners q := owners_notifyQ add _ q
+theorem mem_ownerIds_notify {add : Bool} {n : Nat} {q : List Entry} :
+    ownerIds (Ev.notify add n q) = ownerIds q := ownerIds_notifyQ add _ q
 
-theorem mem_owners_erase {q : List Entry} {f g : Nat} (h : g ∈ owners (Ev.erase q f)) :
-    g ∈ owners q ∧ g ≠ f := by
-  simp only [owners, Ev.erase, List.mem_map, List.mem_filter, bne_iff_ne, ne_eq] at h ⊢
+theorem mem_ownerIds_erase {q : List Entry} {f g : Nat} (h : g ∈ ownerIds (Ev.erase q f)) :
+    g ∈ ownerIds q ∧ g ≠ f := by
+  simp only [ownerIds, Ev.erase, List.mem_map, List.mem_filter, bne_iff_ne, ne_eq] at h ⊢
   obtain ⟨e, ⟨he, hne⟩, rfl⟩ := h
   exact ⟨⟨e, he, rfl⟩, hne⟩
 
-theorem mem_owners_drop {q : List Entry} {f g : Nat} (h : g ∈ owners (Ev.drop q f)) :
-    g ∈ owners q ∧ g ≠ f := by
+theorem mem_ownerIds_drop {q : List Entry} {f g : Nat} (h : g ∈ ownerIds (Ev.drop q f)) :
+    g ∈ ownerIds q ∧ g ≠ f := by
   unfold Ev.drop at h
   split at h
-  · rw [mem_owners_notify] at h; exact mem_owners_erase h
-  · exact mem_owners_erase h
+  · rw [mem_ownerIds_notify] at h; exact mem_ownerIds_erase h
+  · exact mem_ownerIds_erase h
 
 end ALock
 
@@ -33,7 +33,7 @@ namespace ALock.Sem
 
 /-- every listener belongs to a polled, uncompleted future -/
 def OwnP (s : Sys) : Prop :=
-  ∀ g ∈ owners s.q, ∃ fu ∈ s.futs, fu.id = g ∧ fu.polled = true ∧ fu.done = false
+  ∀ g ∈ ownerIds s.q, ∃ fu ∈ s.futs, fu.id = g ∧ fu.polled = true ∧ fu.done = false
 
 structure WkInv (s : Sys) : Prop where
   wok : WOK s.q s.woken
@@ -70,8 +70,8 @@ theorem poll_wk (s : Sys) (fu : Fut) (t : Nat) (h : WkInv s) (hm : fu ∈ s.futs
     WkInv (poll s fu t).1 := by
   obtain ⟨hw, ho, hn⟩ := h
   have hw1 : WOK s.q (s.woken.filter (· != fu.id)) := hw.weaken (filter_sublist' _ _)
-  -- owners other than `fu.id` keep their futures through the two `setFut`s
-  have keep : ∀ (g1 g2 : Fut → Fut) (g : Nat), g ∈ owners s.q → g ≠ fu.id →
+  -- ownerIds other than `fu.id` keep their futures through the two `setFut`s
+  have keep : ∀ (g1 g2 : Fut → Fut) (g : Nat), g ∈ ownerIds s.q → g ≠ fu.id →
       ∃ x ∈ setFut (setFut s.futs fu.id g1) fu.id g2, x.id = g ∧ x.polled = true ∧ x.done = false := by
     intro g1 g2 g hg hne
     obtain ⟨x, hx, hxi, hxp, hxd⟩ := ho g hg
@@ -83,7 +83,7 @@ theorem poll_wk (s : Sys) (fu : Fut) (t : Nat) (h : WkInv s) (hm : fu ∈ s.futs
     · simpa [Sys.dropListener] using hw.drop fu.id
     · intro g hg
       simp only [Sys.dropListener] at hg
-      obtain ⟨h1, h2⟩ := mem_owners_drop hg
+      obtain ⟨h1, h2⟩ := mem_ownerIds_drop hg
       simpa [Sys.dropListener] using keep _ _ g h1 h2
     · simp only [Sys.dropListener]
       exact setFut_nodup (setFut_nodup hn (fun _ => rfl)) (fun _ => rfl)
@@ -93,10 +93,10 @@ theorem poll_wk (s : Sys) (fu : Fut) (t : Nat) (h : WkInv s) (hm : fu ∈ s.futs
         refine ⟨?_, ?_, ?_⟩
         · exact (hw.erase fu.id).append _ (has_erase_self _ _)
         · intro g hg
-          simp only [owners, List.map_append, List.mem_append, List.map_cons, List.map_nil,
+          simp only [ownerIds, List.map_append, List.mem_append, List.map_cons, List.map_nil,
             List.mem_singleton] at hg
           rcases hg with hg | rfl
-          · obtain ⟨h1, h2⟩ := mem_owners_erase (by simpa [owners] using hg)
+          · obtain ⟨h1, h2⟩ := mem_ownerIds_erase (by simpa [ownerIds] using hg)
             obtain ⟨x, hx, hxi, hxp, hxd⟩ := ho g h1
             exact ⟨x, setFut_other hx (by rw [hxi]; exact h2), hxi, hxp, hxd⟩
           · exact ⟨_, setFut_self hm rfl, rfl, rfl, hd⟩
@@ -104,7 +104,7 @@ theorem poll_wk (s : Sys) (fu : Fut) (t : Nat) (h : WkInv s) (hm : fu ∈ s.futs
       · -- spurious poll: new waker
         refine ⟨hw1.setTask _ _, ?_, ?_⟩
         · intro g hg
-          rw [owners_setTask] at hg
+          rw [ownerIds_setTask] at hg
           by_cases hne : g = fu.id
           · subst hne; exact ⟨_, setFut_self hm rfl, rfl, rfl, hd⟩
           · obtain ⟨x, hx, hxi, hxp, hxd⟩ := ho g hg
@@ -114,12 +114,12 @@ theorem poll_wk (s : Sys) (fu : Fut) (t : Nat) (h : WkInv s) (hm : fu ∈ s.futs
       rename_i hh
       refine ⟨hw1.append _ (by simpa using hh), ?_, ?_⟩
       · intro g hg
-        simp only [owners, List.map_append, List.mem_append, List.map_cons, List.map_nil,
+        simp only [ownerIds, List.map_append, List.mem_append, List.map_cons, List.map_nil,
           List.mem_singleton] at hg
         rcases hg with hg | rfl
         · by_cases hne : g = fu.id
           · subst hne; exact ⟨_, setFut_self hm rfl, rfl, rfl, hd⟩
-          · obtain ⟨x, hx, hxi, hxp, hxd⟩ := ho g (by simpa [owners] using hg)
+          · obtain ⟨x, hx, hxi, hxp, hxd⟩ := ho g (by simpa [ownerIds] using hg)
             exact ⟨x, setFut_other hx (by rw [hxi]; exact hne), hxi, hxp, hxd⟩
         · exact ⟨_, setFut_self hm rfl, rfl, rfl, hd⟩
       · exact setFut_nodup hn (fun _ => rfl)
@@ -161,7 +161,7 @@ theorem step_wk (s : Sys) (op : Op) (h : WkInv s) : WkInv (next s op) := by
       · simpa [Sys.dropListener] using hw.drop f
       · intro g hg
         simp only [Sys.dropListener] at hg
-        obtain ⟨h1, h2⟩ := mem_owners_drop hg
+        obtain ⟨h1, h2⟩ := mem_ownerIds_drop hg
         obtain ⟨x, hx, hxi, hxp⟩ := ho g h1
         refine ⟨x, ?_, hxi, hxp⟩
         simp only [Sys.dropListener, List.mem_filter, bne_iff_ne, ne_eq]
@@ -182,7 +182,7 @@ theorem step_wk (s : Sys) (op : Op) (h : WkInv s) : WkInv (next s op) := by
       · simpa [Sys.doNotify] using h.wok.notify false 1
       · intro g' hg'
         simp only [Sys.doNotify] at hg'
-        rw [mem_owners_notify] at hg'
+        rw [mem_ownerIds_notify] at hg'
         simpa [Sys.doNotify] using h.own g' hg'
   | forget g =>
     simp only [step]
@@ -195,7 +195,7 @@ theorem step_wk (s : Sys) (op : Op) (h : WkInv s) : WkInv (next s op) := by
     · simpa [Sys.doNotify] using h.wok.notify false n
     · intro g' hg'
       simp only [Sys.doNotify] at hg'
-      rw [mem_owners_notify] at hg'
+      rw [mem_ownerIds_notify] at hg'
       simpa [Sys.doNotify] using h.own g' hg'
   | hclone => exact ⟨h.wok, h.own, h.nodup⟩
   | hdrop =>
@@ -209,17 +209,17 @@ theorem run_wk (s : Sys) (ops : List Op) (h : WkInv s) : WkInv (run s ops) := by
   | cons op ops ih => exact ih _ (step_wk s op h)
 
 theorem init_wk (n : Nat) : WkInv (Sys.new n) :=
-  ⟨⟨by simp [Sys.new, owners], by simp [Sys.new], by simp [Sys.new]⟩, by simp [OwnP, Sys.new, owners],
+  ⟨⟨by simp [Sys.new, ownerIds], by simp [Sys.new], by simp [Sys.new]⟩, by simp [OwnP, Sys.new, ownerIds],
    by simp [Sys.new]⟩
 
 /-- the listeners are no more than the pending polled acquisitions -/
 theorem WkInv.q_le {s : Sys} (h : WkInv s) : s.q.length ≤ (pendingPolled s).length := by
-  have := nodup_subset_length (owners s.q) ((pendingPolled s).map (·.id)) h.wok.nq (by
+  have := nodup_subset_length (ownerIds s.q) ((pendingPolled s).map (·.id)) h.wok.nq (by
     intro g hg
     obtain ⟨x, hx, hxi, hxp, hxd⟩ := h.own g hg
     refine List.mem_map.mpr ⟨x, ?_, hxi⟩
     simp [pendingPolled, hx, hxp, hxd])
-  simpa [owners] using this
+  simpa [ownerIds] using this
 
 /-- **outstanding wake-ups never outnumber the pending acquisitions** -/
 theorem WkInv.woken_le {s : Sys} (h : WkInv s) : s.woken.length ≤ (pendingPolled s).length :=
